@@ -10,27 +10,31 @@
    sequential step function of the model); any finer-grained body is what the mutex makes atomic anyway. *)
 From Coq Require Import String List NArith ZArith Bool Arith Lia.
 From LV Require Import model.LockDiscipline model.Lin proofs.LinSim proofs.Lin proofs.LinTable
-  model.Wlru model.Semaphore.
+  model.Wlru model.Semaphore spec.KvSpec model.LinObjects.
 Import ListNotations.
 Local Open Scope string_scope.
 
 (* ------------------------------------------------------------------ lock kinds of the operations of one Go type *)
+Definition mkey := (string * string)%type.     (* (Go type, Go method) *)
+Definition find_key (tbl : list lock_row) (k : mkey) : option lock_row :=
+  find (fun r => key_eqb (row_key r) k) tbl.   (* first row of the function: its own object comes first *)
+Definition keys_of (t : string) (ms : list string) : list mkey := map (pair t) ms.
+
 Section TableKinds.
   Variable op : Type.
-  Variable tname : string.              (* Go type *)
-  Variable mname : op -> string.        (* Go method an operation invokes *)
-  Variable names : list string.         (* all methods used *)
-  Variable readonly_m : string -> bool. (* methods whose MODEL step is read-only *)
-  Hypothesis names_complete : forall o, In (mname o) names.
+  Variable mkey_of : op -> mkey.        (* Go method an operation invokes *)
+  Variable names : list mkey.           (* all methods used *)
+  Variable readonly_m : mkey -> bool.   (* methods whose MODEL step is read-only *)
+  Hypothesis names_complete : forall o, In (mkey_of o) names.
   Variable tbl : list lock_row.
 
   Definition tk_kind (o : op) : lkind :=
-    match find_row tbl tname (mname o) with Some r => kind_of_row r | None => KNone end.
+    match find_key tbl (mkey_of o) with Some r => kind_of_row r | None => KNone end.
 
   (* every method has an ok, live row; exclusive, or shared with a read-only model step; never lock-free *)
   Definition tk_check : bool :=
     forallb (fun m =>
-      match find_row tbl tname m with
+      match find_key tbl m with
       | Some r => method_ok r && negb (r_quiescent r) &&
                   match kind_of_row r with KExcl => true | KShared => readonly_m m | KNone => false end
       | None => false
@@ -39,16 +43,16 @@ Section TableKinds.
   Hypothesis Hcheck : tk_check = true.
 
   Lemma tk_row : forall o,
-    match tk_kind o with KExcl => True | KShared => readonly_m (mname o) = true | KNone => False end.
+    match tk_kind o with KExcl => True | KShared => readonly_m (mkey_of o) = true | KNone => False end.
   Proof.
     intro o. unfold tk_check in Hcheck. rewrite forallb_forall in Hcheck.
     specialize (Hcheck _ (names_complete o)). unfold tk_kind.
-    destruct (find_row tbl tname (mname o)) as [r|]; [|discriminate].
+    destruct (find_key tbl (mkey_of o)) as [r|]; [|discriminate].
     apply andb_true_iff in Hcheck. destruct Hcheck as [_ Hk].
     destruct (kind_of_row r); auto. discriminate.
   Qed.
 
-  Lemma tk_not_readonly_excl : forall o, readonly_m (mname o) = false -> tk_kind o = KExcl.
+  Lemma tk_not_readonly_excl : forall o, readonly_m (mkey_of o) = false -> tk_kind o = KExcl.
   Proof. intros o Hr. pose proof (tk_row o) as H. destruct (tk_kind o); auto; [congruence|contradiction]. Qed.
 End TableKinds.
 
@@ -96,27 +100,26 @@ Section OneStep.
       + now apply IH.
   Qed.
 
-  Variable tname : string.
-  Variable mname : op -> string.
-  Variable names : list string.
-  Variable readonly_m : string -> bool.
-  Hypothesis names_complete : forall o, In (mname o) names.
-  Hypothesis readonly_sound : forall o s, readonly_m (mname o) = true -> fst (sstep s o) = s.
+  Variable mkey_of : op -> mkey.
+  Variable names : list mkey.
+  Variable readonly_m : mkey -> bool.
+  Hypothesis names_complete : forall o, In (mkey_of o) names.
+  Hypothesis readonly_sound : forall o s, readonly_m (mkey_of o) = true -> fst (sstep s o) = s.
   Variable tbl : list lock_row.
-  Hypothesis Hcheck : tk_check tname names readonly_m tbl = true.
+  Hypothesis Hcheck : tk_check names readonly_m tbl = true.
 
-  Notation os_kind := (tk_kind op tname mname tbl).
+  Notation os_kind := (tk_kind op mkey_of tbl).
 
   Lemma os_shared_readonly : shared_readonly state op (option ret) os_mstep os_kind.
   Proof.
-    intros o Hk l s. pose proof (tk_row op tname mname names readonly_m names_complete tbl Hcheck o) as Hr.
+    intros o Hk l s. pose proof (tk_row op mkey_of names readonly_m names_complete tbl Hcheck o) as Hr.
     rewrite Hk in Hr. destruct l as [x|]; simpl; [reflexivity|].
     pose proof (readonly_sound o s Hr) as E. destruct (sstep s o); simpl in *; auto.
   Qed.
 
   Lemma os_none_stateless : none_stateless state op (option ret) os_mstep os_kind.
   Proof.
-    intros o Hk. pose proof (tk_row op tname mname names readonly_m names_complete tbl Hcheck o) as Hr.
+    intros o Hk. pose proof (tk_row op mkey_of names readonly_m names_complete tbl Hcheck o) as Hr.
     rewrite Hk in Hr. contradiction.
   Qed.
 
@@ -164,15 +167,19 @@ Section WlruInstance.
   Definition w_readonly (m : string) : bool :=
     existsb (String.eqb m) ["Peek"; "Contains"; "GetOldest"; "Keys"; "Len"; "Weight"; "Total"].
 
-  Lemma wnames_complete : forall o, In (wname o) wnames.
-  Proof. intros [[]|]; simpl; tauto. Qed.
+  Definition wkey (o : wop) : mkey := ("Cache", wname o).
+  Definition wkeys : list mkey := keys_of "Cache" wnames.
+  Definition wk_readonly (k : mkey) : bool := w_readonly (snd k).
 
-  Lemma w_readonly_sound : forall o c, w_readonly (wname o) = true -> fst (wstep c o) = c.
-  Proof. intros [[]|] c H; simpl in H; try discriminate; reflexivity. Qed.
+  Lemma wnames_complete : forall o, In (wkey o) wkeys.
+  Proof. intros [[]|]; unfold wkey, wkeys, keys_of; simpl; tauto. Qed.
+
+  Lemma w_readonly_sound : forall o c, wk_readonly (wkey o) = true -> fst (wstep c o) = c.
+  Proof. intros [[]|] c H; unfold wk_readonly in H; simpl in H; try discriminate; reflexivity. Qed.
 
   Variable tbl : list lock_row.
-  Hypothesis Hcheck : tk_check "Cache" wnames w_readonly tbl = true.
-  Definition wkind : wop -> lkind := tk_kind wop "Cache" wname tbl.
+  Hypothesis Hcheck : tk_check wkeys wk_readonly tbl = true.
+  Definition wkind : wop -> lkind := tk_kind wop wkey tbl.
 
   (* wlru.Cache, every operation, every interleaving: linearizable w.r.t. the step function of Wlru.v *)
   Theorem wlru_linearizable : forall c0 tr c,
@@ -181,7 +188,7 @@ Section WlruInstance.
     linearizable (Wlru.cache K V) wop wret (option wret) (os_linit wop wret) (os_mstep _ _ _ wstep)
          (os_fin wop wret) nowait nowstep c0 (hist wop wret tr).
   Proof.
-    exact (os_linearizable _ _ _ wstep "Cache" wname wnames w_readonly wnames_complete w_readonly_sound tbl Hcheck).
+    exact (os_linearizable _ _ _ wstep wkey wkeys wk_readonly wnames_complete w_readonly_sound tbl Hcheck).
   Qed.
 
   Theorem wlru_race_free : forall c0 tr c,
@@ -189,7 +196,7 @@ Section WlruInstance.
          nowait nowstep wkind c0 tr c ->
     ~ race (Wlru.cache K V) wop wret (option wret) (os_fin wop wret) nowait wkind c.
   Proof.
-    exact (os_race_free _ _ _ wstep "Cache" wname wnames w_readonly wnames_complete w_readonly_sound tbl Hcheck).
+    exact (os_race_free _ _ _ wstep wkey wkeys wk_readonly wnames_complete w_readonly_sound tbl Hcheck).
   Qed.
 End WlruInstance.
 
@@ -341,34 +348,38 @@ Definition sname (o : sop) : string :=
 Definition snames : list string := ["TryAcquire"; "Release"; "Processing"; "Available"; "Terminate"; "Acquire"].
 Definition s_readonly (m : string) : bool := existsb (String.eqb m) ["Processing"; "Available"].
 
-Lemma snames_complete : forall o, In (sname o) snames.
-Proof. intros []; simpl; tauto. Qed.
+Definition skey (o : sop) : mkey := ("DataSemaphore", sname o).
+Definition skeys : list mkey := keys_of "DataSemaphore" snames.
+Definition sk_readonly (k : mkey) : bool := s_readonly (snd k).
 
-Lemma s_readonly_sound : forall o l st, s_readonly (sname o) = true -> snd (sem_mstep o l st) = st.
+Lemma snames_complete : forall o, In (skey o) skeys.
+Proof. intros []; unfold skey, skeys, keys_of; simpl; tauto. Qed.
+
+Lemma s_readonly_sound : forall o l st, sk_readonly (skey o) = true -> snd (sem_mstep o l st) = st.
 Proof.
   intros o l [h c] H. unfold sem_mstep. destruct (sl_res l); [reflexivity|].
-  destruct o; simpl in H; try discriminate; reflexivity.
+  destruct o; unfold sk_readonly in H; simpl in H; try discriminate; reflexivity.
 Qed.
 
 Section SemInstance.
   Variable tbl : list lock_row.
-  Hypothesis Hcheck : tk_check "DataSemaphore" snames s_readonly tbl = true.
-  Definition skind : sop -> lkind := tk_kind sop "DataSemaphore" sname tbl.
+  Hypothesis Hcheck : tk_check skeys sk_readonly tbl = true.
+  Definition skind : sop -> lkind := tk_kind sop skey tbl.
 
   Lemma sem_shared_readonly : shared_readonly sstate sop sloc sem_mstep skind.
   Proof.
-    intros o Hk l s. pose proof (tk_row sop "DataSemaphore" sname snames s_readonly snames_complete tbl Hcheck o) as Hr.
+    intros o Hk l s. pose proof (tk_row sop skey skeys sk_readonly snames_complete tbl Hcheck o) as Hr.
     unfold skind in Hk. rewrite Hk in Hr. now apply s_readonly_sound.
   Qed.
   Lemma sem_none_stateless : none_stateless sstate sop sloc sem_mstep skind.
   Proof.
-    intros o Hk. pose proof (tk_row sop "DataSemaphore" sname snames s_readonly snames_complete tbl Hcheck o) as Hr.
+    intros o Hk. pose proof (tk_row sop skey skeys sk_readonly snames_complete tbl Hcheck o) as Hr.
     unfold skind in Hk. rewrite Hk in Hr. contradiction.
   Qed.
   Lemma sem_wait_excl : wait_excl sop sloc sem_waits skind.
   Proof.
     intros o l Hw. destruct o; try (unfold sem_waits in Hw; simpl in Hw; destruct (sl_res l); discriminate).
-    apply (tk_not_readonly_excl sop "DataSemaphore" sname snames s_readonly snames_complete tbl Hcheck). reflexivity.
+    apply (tk_not_readonly_excl sop skey skeys sk_readonly snames_complete tbl Hcheck). reflexivity.
   Qed.
 
   (* DataSemaphore incl. the blocking Acquire, every interleaving: linearizable w.r.t. Semaphore.v's arithmetic *)
@@ -440,3 +451,53 @@ Proof.
          simpl in Hfin; inversion Hfin; subst; now destruct (sem_step st _)).
   destruct st as [h c]. exact (sem_acquire_seq w n h c n l' st' r Hrun Hfin).
 Qed.
+
+(* ------------------------------------------------------------------ Flushable over model/Flushable.v (C22) *)
+(* the sequential object is model/LinObjects.fl_step (overlay, reads through it, batch, merged iterator, flush) *)
+Definition fkey (o : fop) : mkey :=
+  match o with
+  | FPut _ _ => ("Flushable", "Put") | FDelete _ => ("Flushable", "Delete")
+  | FGet _ => ("flushableReader", "Get") | FHas _ => ("flushableReader", "Has")
+  | FFlush => ("Flushable", "Flush") | FDropNotFlushed => ("Flushable", "DropNotFlushed")
+  | FPairs => ("Flushable", "NotFlushedPairs") | FSizeEst => ("Flushable", "NotFlushedSizeEst")
+  | FSnap => ("Flushable", "GetSnapshot") | FBatch _ => ("cacheBatch", "Write")
+  | FStat => ("Flushable", "Stat")
+  end.
+Definition fkeys : list mkey :=
+  [("Flushable", "Put"); ("Flushable", "Delete"); ("flushableReader", "Get"); ("flushableReader", "Has");
+   ("Flushable", "Flush"); ("Flushable", "DropNotFlushed"); ("Flushable", "NotFlushedPairs");
+   ("Flushable", "NotFlushedSizeEst"); ("Flushable", "GetSnapshot"); ("cacheBatch", "Write"); ("Flushable", "Stat")].
+Definition fk_readonly (k : mkey) : bool :=
+  existsb (key_eqb k)
+    [("flushableReader", "Get"); ("flushableReader", "Has"); ("Flushable", "NotFlushedPairs");
+     ("Flushable", "NotFlushedSizeEst"); ("Flushable", "GetSnapshot"); ("Flushable", "Stat")].
+
+Lemma fkeys_complete : forall o, In (fkey o) fkeys.
+Proof. intros []; simpl; tauto. Qed.
+Lemma f_readonly_sound : forall o s, fk_readonly (fkey o) = true -> fst (fl_step s o) = s.
+Proof. intros [] s H; simpl in H; try discriminate; reflexivity. Qed.
+
+Section FlushableInstance.
+  Variable tbl : list lock_row.
+  Hypothesis Hcheck : tk_check fkeys fk_readonly tbl = true.
+  Definition fkind : fop -> lkind := tk_kind fop fkey tbl.
+
+  (* Flushable (one store over an in-memory parent), every interleaving: linearizable w.r.t. fl_step *)
+  Theorem flushable_linearizable : forall s0 tr c,
+    exec fstate fop fres (option fres) (os_linit fop fres) (os_mstep _ _ _ fl_step) (os_fin fop fres)
+         nowait nowstep fkind s0 tr c ->
+    linearizable fstate fop fres (option fres) (os_linit fop fres) (os_mstep _ _ _ fl_step) (os_fin fop fres)
+         nowait nowstep s0 (hist fop fres tr).
+  Proof.
+    exact (os_linearizable _ _ _ fl_step fkey fkeys fk_readonly fkeys_complete f_readonly_sound tbl Hcheck).
+  Qed.
+
+  Theorem flushable_race_free : forall s0 tr c,
+    exec fstate fop fres (option fres) (os_linit fop fres) (os_mstep _ _ _ fl_step) (os_fin fop fres)
+         nowait nowstep fkind s0 tr c ->
+    ~ race fstate fop fres (option fres) (os_fin fop fres) nowait fkind c.
+  Proof.
+    exact (os_race_free _ _ _ fl_step fkey fkeys fk_readonly fkeys_complete f_readonly_sound tbl Hcheck).
+  Qed.
+End FlushableInstance.
+
